@@ -137,6 +137,20 @@ func check(c Case) error {
 					_ = primers.CreateBarcodesWithBannedSequences(c.Length, c.Order, v, nil)
 				}()
 			}
+			// ... and, in every second case directly before the judged call, the very same ban list with other barcode
+			// lengths (the shortest the order allows; one shorter than the longest ban) and with the next order
+			if (len(joined)+c.Length)%2 == 0 {
+				longest := 0
+				for _, b := range c.Bans {
+					longest = max(longest, len(b))
+				}
+				for _, lo := range [][2]int{{c.Order + 1, min(c.Order+1, 7)}, {max(c.Order, longest-1), c.Order}, {c.Order, c.Order}} {
+					func() {
+						defer func() { _ = recover() }()
+						_ = primers.CreateBarcodesWithBannedSequences(lo[0], lo[1], c.Bans, nil)
+					}()
+				}
+			}
 		}
 		got = primers.CreateBarcodesWithBannedSequences(c.Length, c.Order, c.Bans, funcs)
 	}
